@@ -51,25 +51,25 @@ type commitPoint struct {
 }
 
 type tsim struct {
-	k     *kernel.K
-	g     *gen
-	disk  *simdisk.Disk
-	t     *tdb
-	model *su.RefMap
-	ver   su.Version
-	cache bool
-	errOnMissing bool
+	k             *kernel.K
+	g             *gen
+	disk          *simdisk.Disk
+	t             *tdb
+	model         *su.RefMap
+	ver           su.Version
+	cache         bool
+	errOnMissing  bool
 	useShimCommit bool
-	liveAtBranch bool // knob: read a key that ends at a valueless in-memory branch through the live instance
-	longKeys     bool // knob: keys of 32 bytes or more (Put/Delete append the node hash into the caller's key buffer)
-	val32        bool // knob: V1 values of exactly 32 bytes (NewValue hashes them, the spec keeps them inline)
-	delPrefix    bool // knob: Delete of an absent key that is a proper prefix of stored keys (removes the longer key's value)
-	tag          string // class suffix for the next commit check
-	null  hash.H256
-	cps   []commitPoint
-	dirty int  // operations since the last commit
-	merged bool // a delete merged / collapsed a branch since the last commit
-	commits int
+	liveAtBranch  bool   // knob: read a key that ends at a valueless in-memory branch through the live instance
+	longKeys      bool   // knob: keys of 32 bytes or more (Put/Delete append the node hash into the caller's key buffer)
+	val32         bool   // knob: V1 values of exactly 32 bytes (NewValue hashes them, the spec keeps them inline)
+	delPrefix     bool   // knob: Delete of an absent key that is a proper prefix of stored keys (removes the longer key's value)
+	tag           string // class suffix for the next commit check
+	null          hash.H256
+	cps           []commitPoint
+	dirty         int  // operations since the last commit
+	merged        bool // a delete merged / collapsed a branch since the last commit
+	commits       int
 }
 
 func tlayout(v su.Version) trie.TrieLayout {
